@@ -90,3 +90,13 @@ PROPS["C07"] = dict(
     outside="operands longer than 3 digits",
     trusted=STUBS_ADDSUB + ["stub: Vec::shrink_to_fit -> no-op (capacity is unobservable)"],
 )
+
+PROPS["C08"] = dict(
+    inject=[("src/bigint/convert.rs", "c08/convert.rs"), ("src/biguint/convert.rs", "c08/floats.rs")],
+    kani=[dict(filter_q="c08_q_", filter_t=["c08_q_", "c08_t_"], jobs=14, timeout_q=200, timeout_t=900)],
+    functions=["ToPrimitive for BigInt/BigUint (to_i8..to_u128,to_isize,to_usize)", "TryFrom<&BigInt>/<BigInt>/<&BigUint>/<BigUint> for 12 primitive types",
+               "From<prim> for BigInt/BigUint", "FromPrimitive", "ToBigInt/ToBigUint for primitives", "TryFrom<signed> for BigUint"],
+    bounds_quick="big -> primitive: values of 0..3 digits, both signs, every digit symbolic (covers every MIN/MAX+-k edge of all 12 types); primitive -> big: every value of each type",
+    outside="float rounding beyond the stated float harness bounds; values longer than 3 digits (they never fit any primitive)",
+    trusted=[],
+)
